@@ -284,6 +284,8 @@ UNITS = [
 ]
 
 ASSUMPTIONS = [
+    "Platform.define's postcondition 'the first definition of a name is kept' is taken from the function's own docstring, not from the "
+    "property statement; for a macro defined twice a compiler uses the last definition (recorded finding emulation:first-definition-of-a-macro-wins)",
     "A1; node.evaluate_for_platform is abstracted as an arbitrary truth value (C02/C03 own expression evaluation and expansion)",
     "Visit enum members modelled by their integer values",
     "association is a collections.defaultdict(set) (created by ParserState.insert_file)",
